@@ -443,25 +443,16 @@ func c10OSEnvWins(c *Check, a *Anchors) {
 	}
 	c.Decide(okSkip && !usesGetenv && n > 0, "os-env-wins", "presence-decides@"+fnDisplay(fb), fb.Decl.Pos(), "skip when os.LookupEnv reports the name set (comma-ok), unless ENV_PRECEDENCE",
 		fmt.Sprintf("the process environment no longer wins by PRESENCE of the name (LookupEnv comma-ok skip: %v, uses os.Getenv: %v): a variable exported as empty would be overridden by the Taskfile's env", okSkip, usesGetenv))
-	// the precedence experiment guards the skip
+	// the precedence experiment guards the skip: LookupEnv is consulted only on the edge where the experiment is disabled
 	guard := false
-	if loop != nil {
-		inspectBody(loop.Body, func(nd ast.Node) bool {
-			if ifs, ok := nd.(*ast.IfStmt); ok {
-				cs := exprStr(ifs.Cond)
-				if strings.Contains(cs, "EnvPrecedence.Enabled()") && strings.HasPrefix(cs, "!") {
-					inspectBody(ifs.Body, func(m ast.Node) bool {
-						if call, ok := m.(*ast.CallExpr); ok && isFunc(callee(info, call), "os", "", "LookupEnv") {
-							guard = true
-						}
-						return true
-					})
-				}
-			}
-			return true
-		})
+	nLookup := 0
+	for call, l := range f.Labels {
+		if l == "lookupenv" {
+			nLookup++
+			guard = f.At[call].Has("false:precedence")
+		}
 	}
-	c.Decide(guard, "os-env-wins", "experiment-guards-skip@"+fnDisplay(fb), fb.Decl.Pos(), "the skip applies only when ENV_PRECEDENCE is disabled", "the process-environment test is no longer nested under `!experiments.EnvPrecedence.Enabled()`")
+	c.Decide(guard && nLookup == 1, "os-env-wins", "experiment-guards-skip@"+fnDisplay(fb), fb.Decl.Pos(), "the skip applies only when ENV_PRECEDENCE is disabled", "the process-environment test is not confined to the edge where experiments.EnvPrecedence.Enabled() is false")
 }
 
 func c10PhaseSources(c *Check, a *Anchors) {
